@@ -289,7 +289,7 @@ func main() {
 			if t == "thorough" {
 				return 500000
 			}
-			return 20000
+			return 50000
 		},
 		Floor: func(t string) int {
 			if t == "thorough" {
